@@ -31,6 +31,7 @@ def plan(tier, seed):
             items.append(dict(kind="sweep", date=str(d), template=t, k=ti, seed=seed))
         for k in range(3):
             items.append(dict(kind="random", date=str(d), k=k, seed=seed))
+        items.append(dict(kind="pensioners", date=str(d), k=50, seed=seed))
     return items
 
 
@@ -84,7 +85,34 @@ def run_item(item):
     params, functions = env.environment(d)
     res = dict(kind=item["kind"], date=item["date"], violations=[], persons=0, recipients={}, regime_changes=0, runs=0,
                multi_bg_households=0, regimes_seen=set())
-    if item["kind"] == "random":
+    if item["kind"] == "pensioners":
+        # pensioner households swept along the earnings points (pension from ~0 to well above the subsistence level)
+        base = popgen.population(rng, d, n_hh=2, params=params, archetypes=["pensioner", "pens_couple"], cycle=True)
+        base["rentner"] = True
+        base["alter"] = np.maximum(base["alter"], 68)
+        base["geburtsjahr"] = d.year - base["alter"]
+        base["jahr_renteneintr"] = base["geburtsjahr"] + 65
+        base["vermögen_bedürft"] = 1000.0
+        for c in ("priv_rente_m", "bruttolohn_m", "eink_selbst_m", "kapitaleink_brutto_m", "eink_vermietung_m", "sonstig_eink_m"):
+            base[c] = 0.0
+        points = np.arange(0, 61, 1.5)
+        parts = []
+        for who in range(len(base)):
+            parts.append(popgen.replicate_with_wages(base, points, column="entgeltp_west", who=who))
+        n_p, n_h = int(parts[0]["p_id"].max()) + 1, int(parts[0]["hh_id"].max()) + 1
+        for i, part in enumerate(parts):
+            parts[i] = popgen.relabel(part, {int(p): int(p) + i * n_p for p in part["p_id"]}, {int(h): int(h) + i * n_h for h in part["hh_id"].unique()})
+        import pandas as pd
+
+        df = pd.concat(parts, ignore_index=True)
+        for c in base.columns:
+            df[c] = df[c].astype(base[c].dtype)
+        T, nodes, roots, dag, fn = env.trace(df, params, functions)
+        res["runs"] += 1
+        reg = monitor(T, res, f"pensioner sweep at {item['date']}")
+        res["regimes_seen"] |= set(reg.tolist())
+        res["sample"] = dict(date=item["date"], kind="pensioners swept along entgeltp_west", persons=len(df))
+    elif item["kind"] == "random":
         df = popgen.population(rng, d, n_hh=20, params=params)
         T, nodes, roots, dag, fn = env.trace(df, params, functions)
         res["runs"] += 1
